@@ -714,8 +714,10 @@ func c20Isolation(c *mon.Ctx, r *mon.Rand) {
 						same = same && d == fam[i].D[k]
 					}
 				} else if same {
+					// (as numbers: sets that differ only in the sign of a zero are one set
+					// to the bucket cache and may share a specification, DESIGN.md section 5)
 					for k, v := range ev.Spec.AsValues() {
-						same = same && math.Float64bits(v) == math.Float64bits(fam[i].V[k])
+						same = same && (v == fam[i].V[k] || math.IsNaN(v) && math.IsNaN(fam[i].V[k]))
 					}
 				}
 				if !same {
